@@ -411,7 +411,7 @@ func main() {
 			"block slots of the harness lie ~1e7 s in the past, so time.Now() in verifyBlock only matters for the future-slot mutant",
 		},
 	}, func(c *mon.Ctx) {
-		states := c.N(320, 8000)
+		states := c.N(960, 16000)
 		c.Cases("state", states, func(k *mon.Case) {
 			r := k.R
 			nval := 2 + r.Intn(5)
